@@ -506,7 +506,7 @@ class MapGen:
             return fmt_val(v)
         for _ in range(4 + r.below(12)):
             h = r.choice(['h1', 'h2'])
-            op = r.weighted([('set', 6), ('get', 5), ('in', 3), ('count', 2), ('delete', 3), ('copy', 2), ('fromarray', 1), ('fromarray_dup', 2), ('keys', 2), ('alias', 2), ('mutkey', 3)])
+            op = r.weighted([('set', 6), ('get', 5), ('in', 3), ('count', 2), ('delete', 3), ('copy', 2), ('fromarray', 1), ('fromarray_dup', 2), ('keys', 2), ('alias', 2), ('mutkey', 3), ('snapshot', 2)])
             self.note(op)
             D = maps[h]
             if op == 'set':
@@ -567,6 +567,15 @@ class MapGen:
                 stmts.append('k = [1]; %s set [k, %d]; k pushBack 2' % (h, val))
                 exp.append('[%d,%s,%d]' % (val, 'nil' if key_of([1, 2]) not in D else str(D[key_of([1, 2])]), len(D)))
                 stmts.append('tr pushBack [%s get [1], %s get [1,2], count %s]' % (h, h, h))
+            elif op == 'snapshot':
+                # a map stored in a map: another object that merely compares equal to the target (its copy, or an empty map
+                # in an empty map) is no self-reference; the entry is stored
+                before = len(D)
+                fresh = r.chance(1, 2)
+                D[('s', 'snap')] = 'MAP'
+                stmts.append('%s set ["snap", %s]' % (h, 'createHashMap' if fresh else '+' + h))
+                exp.append('[%d,%d]' % (len(D), 0 if fresh else before))
+                stmts.append('tr pushBack [count %s, count (%s get "snap")]' % (h, h))
             elif op == 'mutkey':
                 # an array object that has served as a key (looked up, or inserted: the map keeps its own copy) is changed
                 # in place without changing its length, or through an array nested in it, and serves as a key again: it
@@ -623,7 +632,8 @@ class MapEqGen:
         r = self.r
         keys = [r.choice(ALPHABET) for _ in range(1 + r.below(4))]
         base = [(k, r.below(5)) for k in keys]
-        kind = r.weighted([('same', 3), ('reordered', 3), ('subset', 3), ('superset', 2), ('value', 2), ('respelled', 2), ('empty', 1)])
+        kind = r.weighted([('same', 3), ('reordered', 3), ('subset', 3), ('superset', 2), ('value', 2), ('respelled', 2), ('empty', 1),
+                           ('nilvalue', 3), ('nilboth', 1)])
         self.note(kind)
         a = list(base)
         b = list(base)
@@ -639,9 +649,20 @@ class MapEqGen:
             b = [(r.choice([k for k in ALPHABET if key_of(k[1]) == key_of(kk[1])]), v) for kk, v in base]
         elif kind == 'empty':
             b = []
+        elif kind == 'nilvalue':
+            # the same keys; under one of them one map holds nil and the other a number (either way round)
+            j = r.below(len(base))
+            if r.chance(1, 2):
+                a = [(k, None if i == j else v) for i, (k, v) in enumerate(base)]
+            else:
+                b = [(k, None if i == j else v) for i, (k, v) in enumerate(base)]
+        elif kind == 'nilboth':
+            j = r.below(len(base))
+            a = [(k, None if i == j else v) for i, (k, v) in enumerate(base)]
+            b = list(a)
 
         def build(name, pairs):
-            return '%s = createHashMap; ' % name + ''.join('%s set [%s, %d]; ' % (name, kt, v) for (kt, kv), v in pairs)
+            return '%s = createHashMap; ' % name + ''.join('%s set [%s, %s]; ' % (name, kt, 'nil' if v is None else str(v)) for (kt, kv), v in pairs)
 
         def den(pairs):
             d = {}
